@@ -365,7 +365,7 @@ fn history(cfg: &Cfg, rep: &mut Report, h: u64, steps: usize) {
 
 pub fn run(cfg: &Cfg, rep: &mut Report) {
     rep.rule = "Seeded histories on the real stack (claim-topics-and-issuers, identity registry storage, identity claims, identity verifier, claim issuer assembled from the library helpers): registry edits (topics with several, one and ZERO issuers), allow/remove key, nonce bump, revoke/un-revoke, time advance past valid_until, add_claim with genuine or single-defect claims (wrong topic / identity / issuer / nonce in the signed message, data or signature altered, truncated, other scheme, expired, foreign key) signed with real Ed25519 / P-256 / secp256k1 keys. After every step verify_identity for 4 accounts and (every 3rd step) is_claim_valid for every held claim are compared with the iff-oracle. Distinct case = (registry shape, verdict class, outcome) / (scheme, defect or invalidation kind, outcome).".into();
-    let nh = cfg.pick(4u64, 40);
+    let nh = cfg.pick(16u64, 100);
     let steps = cfg.pick(120usize, 250);
     for k in 0..nh {
         if cfg.runs(k) {
